@@ -47,7 +47,13 @@ def variant(r, rec, used_fresh, depth=0):
 
 
 def gen_pair(r):
-    U = gen.gen_tree(r, rootname="R0", maxdepth=r.choice([2, 3, 4]), odd=0.1, md=0.4, avoid_prefix=["R"])
+    U = gen.gen_tree(r, rootname="R0", maxdepth=r.choice([2, 3, 4]), odd=0.1, md=0.4)
+    # names that start with (or equal) the root's name exercise the path arithmetic of targeted appends
+    if U["kids"] and r.random() < 0.3:
+        k = r.choice(U["kids"])
+        nm = r.choice(["R0x", "R0", "R"])
+        if nm not in [x["name"] for x in U["kids"]]:
+            k["name"] = nm
     fresh = set()
     F = variant(r, U, fresh)
     R = variant(r, U, fresh)
@@ -186,6 +192,13 @@ def oracle(case, obs):
                     if alpha.canon_obs(want) != alpha.canon_obs(new):
                         return {"step": idx, "whole_root_append_differs_from_union": True,
                                 "expected": alpha.canon_obs(want), "got": alpha.canon_obs(new)}
+                # exact spec for a foreign node / root appended under an emdpath
+                if last_save["src"] == "X" and last_ok:
+                    want = foreign_spec(cur, last_ms, last_save)
+                    if want is not None and alpha.canon_obs(want) != alpha.canon_obs(new):
+                        return {"step": idx, "foreign_append_differs_from_spec": True, "tree": last_save["tree"],
+                                "target": last_save["target"], "emdpath": last_save["emdpath"],
+                                "expected": alpha.canon_obs(want), "got": alpha.canon_obs(new)}
             cur = new
         elif st["do"] == "save":
             last_save, last_ms, last_ok = st, ms[idx], (o == {"ok": True})
@@ -195,6 +208,30 @@ def oracle(case, obs):
             if alpha.canon_obs(o.get("root")) != alpha.canon_obs(cur):
                 return {"step": idx, "final_read_differs_from_file": True}
     return None
+
+
+def foreign_spec(cur, ms, st):
+    """file tree expected after appending a node / root of a foreign tree under an emdpath (None = not decided here)"""
+    import copy
+    x = ms["src"]["root"]
+    data = hist.tree_at(x, ms["src"]["target"])
+    ep = [p for p in st["emdpath"].split("/") if p != ""][1:]
+    want = copy.deepcopy(cur)
+    tgt = hist.tree_at(want, ep)
+    if tgt is None or data is None:
+        return None
+    if not ms["src"]["target"]:
+        add = data["k"] if st["tree"] is not False else None
+    elif st["tree"] is False:
+        add = [hist.alone(data)]
+    elif st["tree"] is True:
+        add = [data]
+    else:
+        add = data["k"]
+    if add is None:
+        return None
+    tgt["k"] = tgt["k"] + copy.deepcopy(add)
+    return want
 
 
 def known_match(case, fail, finding):
